@@ -1052,7 +1052,8 @@ theorem pushOps_sorted : ∀ (ds : List Bytes) (idx : Nat),
 /-! ### bare multisig -/
 
 /-- the operation raw_iter yields for `numPush n` -/
-def numOp (n idx : Nat) : RawOp := if n ≤ 16 then ⟨0x50 + n, none, idx⟩ else ⟨1, some [UInt8.ofNat n], idx⟩
+def numOp (n idx : Nat) : RawOp :=
+  if n = 0 then ⟨0, some [], idx⟩ else if n ≤ 16 then ⟨0x50 + n, none, idx⟩ else ⟨1, some [UInt8.ofNat n], idx⟩
 
 theorem opN_toNat (n : Nat) (h : n ≤ 16) : (opN n).toNat = 0x50 + n := toNat_ofNat_lt (by omega)
 
@@ -1086,7 +1087,10 @@ theorem step_small (c : Ctx) (fl : Flags) (script : Bytes) (n idx : Nat) (stack 
     checkExec, List.all_nil, true_or, if_true, hb, h4]
 
 theorem numPush_length (n : Nat) : (numPush n).length = if n ≤ 16 then 1 else 2 := by
-  unfold numPush; split <;> simp [pushData]
+  unfold numPush
+  split
+  · rename_i h; subst h; rfl
+  · split <;> simp [pushData]
 
 theorem numPush_length_le (n : Nat) : 1 ≤ (numPush n).length ∧ (numPush n).length ≤ 2 := by
   rw [numPush_length]; split <;> omega
@@ -1097,6 +1101,7 @@ theorem step_numOp (c : Ctx) (fl : Flags) (script : Bytes) (n idx : Nat) (stack 
     step c fl script (numOp n idx) ⟨stack, alt, [], pb, nops⟩ =
       .ok ⟨[UInt8.ofNat n] :: stack, alt, [], pb, nops⟩ := by
   unfold numOp
+  rw [if_neg (by omega)]
   split
   · rename_i h; exact step_small c fl script n idx stack alt pb nops h1 h hsz
   · exact step_push c fl script 1 idx [UInt8.ofNat n] stack alt pb nops (by omega) (by simp) hsz
@@ -1107,6 +1112,9 @@ theorem rawIterFrom_numPush (idx n : Nat) (rest : Bytes) :
        (rawIterFrom (idx + (numPush n).length) rest).2) := by
   unfold numPush numOp
   split
+  · have := rawIterFrom_push idx [] rest (by simp)
+    simpa [pushData] using this
+  split
   · rename_i h
     rw [List.singleton_append, rawIterFrom_opcode idx (opN n) _ (by rw [opN_toNat n h]; omega), opN_toNat n h]
     simp
@@ -1114,12 +1122,15 @@ theorem rawIterFrom_numPush (idx n : Nat) (rest : Bytes) :
     simp [pushData]
 
 theorem numOp_sopIdx (n idx : Nat) : (numOp n idx).sopIdx = idx := by
-  unfold numOp; split <;> rfl
+  unfold numOp; split
+  · rfl
+  · split <;> rfl
 
 /-- the opcode byte of a small number is never the length byte of a push of 2 … 75 bytes -/
-theorem numPush_head (n : Nat) (hn : n ≤ 20) (rest : Bytes) (x : Nat) (hx : x < 0x4c) (hx1 : x ≠ 1) :
+theorem numPush_head (n : Nat) (h1 : 1 ≤ n) (hn : n ≤ 20) (rest : Bytes) (x : Nat) (hx : x < 0x4c) (hx1 : x ≠ 1) :
     (numPush n ++ rest)[0]? ≠ some (UInt8.ofNat x) := by
   unfold numPush
+  rw [if_neg (by omega)]
   split
   · rename_i h
     simp only [List.singleton_append, List.getElem?_cons_zero, ne_eq, Option.some.injEq]
@@ -1145,8 +1156,8 @@ theorem execOp_checkmultisig (c : Ctx) (fl : Flags) (script : Bytes) (idx : Nat)
     execOp c fl script ⟨0xae, none, idx⟩ f st = checkMultiSig c fl 0xae (script.drop st.pbegin) st := by
   simp [execOp, binaryNumOps, unaryNumOps]
 
-theorem fad_multisig (cap : Captured) (m : Nat) (keys : List Bytes) (sig : Bytes) (hm : m ≤ 20)
-    (hn : keys.length ≤ 20) (hk : ∀ k ∈ keys, k.length < 0x4c) (hs : sig.length < 0x4c) (hs1 : sig.length ≠ 1)
+theorem fad_multisig (cap : Captured) (m : Nat) (keys : List Bytes) (sig : Bytes) (hm1 : 1 ≤ m) (hm : m ≤ 20)
+    (hn1 : 1 ≤ keys.length) (hn : keys.length ≤ 20) (hk : ∀ k ∈ keys, k.length < 0x4c) (hs : sig.length < 0x4c) (hs1 : sig.length ≠ 1)
     (hne : ∀ k ∈ keys, sig.length ≠ k.length) :
     findAndDelete cap (multisigScript m keys) (pushData sig) = .ok (multisigScript m keys) := by
   have hsh : multisigScript m keys = numPush m ++ (pushAll keys ++ (numPush keys.length ++ [0xae])) := rfl
@@ -1156,7 +1167,7 @@ theorem fad_multisig (cap : Captured) (m : Nat) (keys : List Bytes) (sig : Bytes
     simp only [List.mem_cons, List.mem_append, List.not_mem_nil, or_false] at ho
     rcases ho with rfl | ho | rfl | rfl
     · rw [numOp_sopIdx, hsh]
-      exact numPush_head m hm _ _ hs hs1
+      exact numPush_head m hm1 hm _ _ hs hs1
     · obtain ⟨a, _, _, d, hd, e⟩ := pushOps_facts (numPush keys.length ++ [0xae]) keys (numPush m) hk o ho
       rw [hsh, a, e]
       simp only [ne_eq, Option.some.injEq]
@@ -1164,7 +1175,7 @@ theorem fad_multisig (cap : Captured) (m : Nat) (keys : List Bytes) (sig : Bytes
     · rw [numOp_sopIdx, hsh, List.getElem?_append_right (by omega), List.getElem?_append_right (by omega)]
       have : (numPush m).length + (pushAll keys).length - (numPush m).length - (pushAll keys).length = 0 := by omega
       rw [this]
-      exact numPush_head keys.length hn _ _ hs hs1
+      exact numPush_head keys.length hn1 hn _ _ hs hs1
     · have : (multisigScript m keys)[(numPush m).length + (pushAll keys).length + (numPush keys.length).length]? =
           some 0xae := by
         rw [hsh, List.getElem?_append_right (by omega), List.getElem?_append_right (by omega),
@@ -1261,7 +1272,7 @@ theorem evalScript_multisig (c : Ctx) (fl : Flags) (m : Nat) (keys sigs : List B
         (chkSig c.env (multisigScript m keys)) (by simpa using hn) (by simp; omega) (by simp; omega)
         (by simp; omega)
         (fun s hs' => hs s (by simpa using hs'))
-        (fun s hs' cap => fad_multisig cap m keys s hm20 hn hk (hs s (by simpa using hs'))
+        (fun s hs' cap => fad_multisig cap m keys s hm1 hm20 (by omega) hn hk (hs s (by simpa using hs'))
           (hs1 s (by simpa using hs')) (hne s (by simpa using hs')))
         (fun cap s k => checkSig_total c cap s k _ htot hl hparse)
       simp only [List.length_reverse, hsl] at this
@@ -1271,6 +1282,8 @@ theorem evalScript_multisig (c : Ctx) (fl : Flags) (m : Nat) (keys sigs : List B
 theorem isP2sh_multisig (m : Nat) (keys : List Bytes) (hm : m ≤ 20) : isP2sh (multisigScript m keys) = false := by
   apply isP2sh_false_of_head
   unfold multisigScript numPush
+  split
+  · simp
   split
   · rename_i h
     simp only [List.singleton_append, List.getElem?_cons_zero, ne_eq, Option.some.injEq]
